@@ -43,6 +43,66 @@ def r1_tables(run, F):
     return A
 
 
+def r1b_escape_state(run, F, A):
+    """Each escape sequence is decoded from its own characters: a buffer whose *length* decides when an escape is complete
+    (`digits.len() == 2` for \\xHH, the hex text of \\u{..}) is created inside the arm that decodes that escape.  Hoisted
+    to the literal it keeps the digits of the previous escape: the second \\x of a literal contributes no byte."""
+    b = A.body
+    found = 0
+    for m in hirq.matches(b["hir"]):
+        arms = []
+        for a in m["arms"]:
+            lits = [x.get("v") for x in walk(a["pat"]) if x.get("k") == "Lit" and x.get("lk") == "char"]
+            if 120 in lits or 117 in lits:     # 'x', 'u'
+                arms.append((a, lits))
+        if len(arms) < 2:
+            continue
+        for a, lits in arms:
+            name = "\\x" if 120 in lits else "\\u"
+            tested = {}
+            for n in walk(a["body"]):
+                if n.get("k") == "Binary" and n.get("op") in ("Eq", "Lt", "Le", "Ge", "Gt", "Ne"):
+                    for side in (n["lhs"], n["rhs"]):
+                        u = hirq.unwrap_trivial(side)
+                        if u.get("k") == "MethodCall" and u.get("name") == "len":
+                            r = hirq.unwrap_trivial(u["recv"])
+                            if r.get("k") == "Path" and r.get("rk") == "Local":
+                                tested[r["lid"]] = r.get("res")
+            declared = set()
+            for n in walk(a["body"]):
+                if n.get("k") == "Let":
+                    for nm, lid, _ in hirq.pat_bindings(n["pat"]):
+                        declared.add(lid)
+            for lid, nm in tested.items():
+                found += 1
+                run.ob("R1-ESCAPE-STATE-FRESH", "alpha %s|%s" % (name, nm), lid in declared, F.where(b, a),
+                       "`%s` decides by its length when a %s escape is complete; it must be created inside the arm that decodes the escape "
+                       "(declared there: %s)" % (nm, name, lid in declared))
+    run.require(found >= 1, "alpha lexer: length-tested escape buffers not found")
+
+
+NARROW = {"usize", "u64", "u32", "u16", "u8", "i64", "i32", "i16", "i8", "isize"}
+
+
+def r2b_no_narrowing(run, F):
+    """A literal's value (the u128 payload of its token) is never narrowed with `as` on its way into the tree: `*x as usize`
+    for an array length turned `[18446744073709551617]u8` into an array of length 1 without a diagnostic."""
+    n = 0
+    for p, b in F.lib.bodies.items():
+        if "hir" not in b or F.rel(b["file"]) not in ("src/alpha/parser.rs", "src/alpha/lexer.rs"):
+            continue
+        for x in walk(b["hir"]):
+            if x.get("k") == "Cast" and isinstance(x.get("e"), dict):
+                src = hirq.unwrap_trivial(x["e"])
+                st = F.lib.types[src["t"]] if src.get("t") is not None else "?"
+                tt = F.lib.types[x["t"]] if x.get("t") is not None else "?"
+                if st.lstrip("&") in ("u128", "i128"):
+                    n += 1
+                    run.ob("R2-NO-NARROWING-CAST", "%s|%s as %s" % (b["npath"].split("::")[-1], st, tt), tt not in NARROW, F.where(b, x),
+                           "a 128-bit literal value is converted with `as %s`: values beyond that type are silently truncated (use try_from and report E140)" % tt)
+    run.ob("R2-NO-NARROWING-CAST", "scan", n >= 1, "src/alpha/parser.rs", "%d casts from 128-bit values in lexer/parser" % n)
+
+
 def r2_accumulation(run, F, A):
     # alpha: library conversions, Err -> InvalidIntegerLength
     for armname, radixes in (("0", [16, 2]), ("1-9", [])):
@@ -313,11 +373,49 @@ def r6_generator(run, F):
                            sample={"type": t, "mask": hex(mask), "type_max": hex(need)})
 
 
+VERBATIM_CONSUMERS = {
+    "alpha::generator::generate_inplace_string_literal", "alpha::generator::generate_global_string_literal", "alpha::generator::generate_array_slice",
+    "alpha::generator::generate_ext_array_view", "std::vec::Vec::len", "core::slice::len", "std::ops::Try::branch", "std::ops::FromResidual::from_residual",
+    "<std::vec::Vec<T, A> as std::iter::Extend<&'a T>>::extend", "<std::vec::Vec<T, A> as std::ops::Deref>::deref", "std::prelude::v1::Ok",
+}
+
+
+def r7_string_bytes(run, F):
+    """A string literal is a sequence of bytes (\\xHH escapes are raw bytes): the generator must materialise exactly those
+    bytes and take exactly their count as the length.  Any re-encoding on the way (from_utf8_lossy, to_string, chars)
+    changes both for bytes that are not valid UTF-8."""
+    n = 0
+    for p, b in F.lib.bodies.items():
+        if "hir" not in b or not F.rel(b["file"]).endswith("alpha/generator.rs"):
+            continue
+        for m in hirq.matches(b["hir"]):
+            for a in m["arms"]:
+                for alt in hirq.pat_alts(a["pat"]):
+                    if not (hirq.pat_res(alt) or "").endswith("Expression::StringLiteral"):
+                        continue
+                    binds = [l for nm, l, t in hirq.pat_bindings(alt) if nm == "bytes"]
+                    if not binds:
+                        continue
+                    der = visit.derived_lids(a["body"], set(binds))
+                    used = set()
+                    for c in hirq.calls(a["body"]):
+                        if any(hirq.uses_local(i, l) for l in der for i in visit.call_inputs(c)):
+                            used.add(hirq.callee(c) or hirq.callee_decl(c) or c.get("name"))
+                    n += 1
+                    extra = sorted(u for u in used if u not in VERBATIM_CONSUMERS)
+                    run.ob("R7-STRING-BYTES-VERBATIM", "%s|line %s" % (b["npath"].split("::")[-1].split(">")[0], "" if len(used) else "-"), not extra, F.where(b, a),
+                           "the bytes of a string literal flow into %s; not reviewed as byte-preserving: %s" % (sorted(x.split("::")[-1] for x in used), extra))
+    run.require(n >= 3, "generator: StringLiteral arms not found (%d)" % n)
+
+
 def check(run):
     F = run.facts("B")
     A = r1_tables(run, F)
+    r1b_escape_state(run, F, A)
     r2_accumulation(run, F, A)
+    r2b_no_narrowing(run, F)
     r3_parser(run, F)
     r4_limits(run, F)
     r5_linter(run, F)
     r6_generator(run, F)
+    r7_string_bytes(run, F)
